@@ -1,7 +1,9 @@
 (* Properties/C51.v — Commit-graph files interoperate with git.
    Statements only; proofs in Proofs/C51.v. *)
 From Coq Require Import List NArith ZArith Bool.
-From GoGit Require Import Base.Out Model.CommitGraph Proofs.C51 Proofs.C51Reader.
+From Coq Require Import Permutation.
+From GoGit Require Import Base.Out Model.CommitGraph Spec.Dag Spec.DagGen2 Proofs.C51 Proofs.C51Reader Proofs.C51Records
+  Proofs.C51Roundtrip Proofs.C51Decode Proofs.C51Derived Proofs.C51Lookup.
 Import ListNotations.
 Local Open Scope N_scope.
 
@@ -45,6 +47,94 @@ Theorem C51_overflow_count_before_fix_refuted :
 Proof. exists witness_entries. destruct overflow_before_fix_refuted as [A [B [C [D _]]]]. auto. Qed.
 Print Assumptions C51_overflow_count_before_fix_refuted.
 
+(* ---- per-commit read-back.
+   A graph is well formed (graph_ok) when: commit ids are distinct 20-byte strings (byte values < 256), tree ids
+   have 20 bytes, every parent is a commit of the graph, 0 <= commit time < 2^34, generation (level) < 2^30,
+   GenerationV2 < 2^64, at most 0x70000000 commits (parentNone) and fewer than 2^31 octopus edges.  Nothing is
+   assumed about the size of the output. *)
+
+(* position i of the file holds the i-th commit in id order; GetCommitDataByIndex returns its tree, the positions
+   and ids of ALL its parents in order (none / one / two in the two parent words, three or more through the
+   EDGE chunk with the parentOctopusUsed and parentLast flags), its level and time (`time | generation << 34`)
+   and its generation v2 (commit time + the 31-bit offset of the GDA2 chunk, or + the 64-bit GDO2 slot the
+   word points to when the offset is >= 2^31; uint64 wrap-around of GenerationV2 - time included) *)
+Theorem C51_commit_data : forall es trailer fi i, graph_ok es -> List.length trailer = 20%nat ->
+  open_file (encode es ++ trailer) = Ok fi -> (i < List.length es)%nat ->
+  let e := nth i (sorted_entries es) dummy_entry in
+  hash_local (encode es ++ trailer) fi (N.of_nat i) = Ok (e_hash e) /\
+  get_commit_data (encode es ++ trailer) fi (N.of_nat i) =
+    Ok (mkCD (e_tree e) (map (hash_to_index (sorted_of es)) (e_parents e)) (e_parents e) (e_gen e)
+             (if has_gen2 es then norm_gen2 e else 0) (Z.to_N (e_when e))).
+Proof.
+  intros es trailer fi i Hg Htr Hopen Hi e. pose proof (graph_ok_wf es Hg) as Hwf.
+  assert (Hi' : (i < List.length (sorted_of es))%nat).
+  { rewrite (Permutation_length (sorted_perm es (rt_wfe es Hwf))), map_length. exact Hi. }
+  split.
+  - rewrite (rt_hash_local es trailer Hwf Htr fi Hopen i Hi').
+    destruct (rt_ent es Hwf i Hi') as [_ E]. unfold e. now rewrite E.
+  - exact (commit_readback es trailer Hwf Htr fi Hopen i Hi').
+Qed.
+Print Assumptions C51_commit_data.
+
+(* GetIndexByHash: the fanout bucket of the id's first byte and the binary search inside it (at most 40 halvings,
+   uint32 midpoint) find every commit of the graph at its position *)
+Theorem C51_lookup : forall es trailer fi i, graph_ok es -> List.length trailer = 20%nat ->
+  open_file (encode es ++ trailer) = Ok fi -> (i < List.length es)%nat ->
+  index_by_hash (encode es ++ trailer) fi (e_hash (nth i (sorted_entries es) dummy_entry)) = Ok (N.of_nat i).
+Proof.
+  intros es trailer fi i Hg Htr Hopen Hi. pose proof (graph_ok_wf es Hg) as Hwf.
+  assert (Hi' : (i < List.length (sorted_of es))%nat).
+  { rewrite (Permutation_length (sorted_perm es (rt_wfe es Hwf))), map_length. exact Hi. }
+  destruct (rt_ent es Hwf i Hi') as [_ E]. rewrite E.
+  exact (lookup_readback es trailer Hwf Htr fi Hopen i Hi').
+Qed.
+Print Assumptions C51_lookup.
+
+(* decode (encode g) = Ok g: opening the file and reading every position yields the commits of g (ids, trees,
+   parent ids, level, generation v2, time) in id order — a permutation of g.  GenerationV2 comes back as written
+   by MemoryIndex.Add (MaxUint64 -> 0) and as 0 for every commit when some commit of g lacks it (the encoder then
+   writes no generation data); [C51_roundtrip_exact]: when every commit has a proper GenerationV2 the list read
+   back is g itself, sorted. *)
+Theorem C51_roundtrip : forall es trailer, graph_ok es -> List.length trailer = 20%nat ->
+  decode (encode es ++ trailer) = Ok (has_gen2 es, map (canon (has_gen2 es)) (sorted_entries es)) /\
+  Permutation (sorted_entries es) es.
+Proof.
+  intros es trailer Hg Htr. pose proof (graph_ok_wf es Hg) as Hwf. split.
+  - now apply decode_roundtrip.
+  - apply sorted_entries_perm. apply (rt_wfe es Hwf).
+Qed.
+Print Assumptions C51_roundtrip.
+
+Theorem C51_roundtrip_exact : forall es trailer, graph_ok es -> List.length trailer = 20%nat ->
+  Forall (fun e => 0 < e_gen2 e < two64 - 1) es ->
+  exists l, decode (encode es ++ trailer) = Ok (true, l) /\ Permutation l es.
+Proof.
+  intros es trailer Hg Htr H2. pose proof (graph_ok_wf es Hg) as Hwf. exists (sorted_entries es). split.
+  - now apply decode_roundtrip_exact.
+  - apply sorted_entries_perm. apply (rt_wfe es Hwf).
+Qed.
+Print Assumptions C51_roundtrip_exact.
+
+(* the values read back are those derived from the commit objects: for a history g (Spec/Dag.v: topologically
+   numbered parent lists and committer times) with injective 20-byte ids, 0 < time < 2^34, fewer than 2^30 commits
+   and fewer than 2^31 parent edges, the graph whose entries carry git's generation numbers — level =
+   Dag.generation, corrected commit date = DagGen2.corrected_date — is read back, for exactly the commits of g,
+   as (id, tree, ids of the parents in order, Dag.generation, DagGen2.corrected_date, committer time) *)
+Theorem C51_derived : forall (g : dag) (hash tree : node -> bytes) trailer,
+  history_ok g hash tree -> List.length trailer = 20%nat ->
+  exists l, decode (encode (entries_of_dag g hash tree) ++ trailer) = Ok (true, l) /\
+    Permutation l (map (fun c => mkEntry (hash c) (tree c) (map hash (parents g c)) (N.of_nat (generation g c))
+                                         (Z.to_N (corrected_date g c)) (ctime g c)) (nodes g)).
+Proof. intros g hash tree trailer H Htr. exact (derived_readback g hash tree trailer H Htr). Qed.
+Print Assumptions C51_derived.
+
+(* the bit-level facts the codec rests on (Proofs/BitPack.v, reusable): a field below 2^k and a field shifted by k
+   do not interfere; a flag bit above a k-bit position is recovered and stripped *)
+Theorem C51_time_generation_word : forall t g, t < 2 ^ 34 ->
+  N.land (N.lor t (N.shiftl g 34)) (N.ones 34) = t /\ N.shiftr (N.lor t (N.shiftl g 34)) 34 = g.
+Proof. intros t g H. split; [now apply BitPack.unpack_low | now apply BitPack.unpack_high]. Qed.
+Print Assumptions C51_time_generation_word.
+
 (* non-vacuity and read-back: an octopus merge (EDGE chunk) with an offset of 3000000001 (GDO2
    chunk): the reader model returns parents, times and generation numbers of the input *)
 Example C51_readback :
@@ -65,5 +155,19 @@ Example C51_readback :
     | Er _ => False
     end
   | Er _ => False
+  end.
+Proof. vm_compute. repeat split. Qed.
+
+(* non-vacuity of C51_derived: a history with an octopus merge whose first parent is dated 3*10^9 s after it:
+   corrected dates 4500000000.., offsets >= 2^31 in two overflow slots *)
+Example C51_derived_example :
+  let g := mkDag [[]; [0]; [0]; [1; 2; 0]; [3]]%nat [4500000000; 1500000000; 1500000100; 1500000200; 1500000300]%Z in
+  map (generation g) (nodes g) = [1; 2; 2; 3; 4]%nat /\
+  map (corrected_date g) (nodes g) = [4500000000; 4500000001; 4500000001; 4500000002; 4500000003]%Z /\
+  match decode (encode (entries_of_dag g (fun c => h20 (N.of_nat c + 1)) (fun _ => h20 9)) ++ repeat 0 20) with
+  | Ok (true, l) => map e_gen2 l = [4500000000; 4500000001; 4500000001; 4500000002; 4500000003] /\
+                    map e_gen l = [1; 2; 2; 3; 4] /\
+                    map (fun e => List.length (e_parents e)) l = [0; 1; 1; 3; 1]%nat
+  | _ => False
   end.
 Proof. vm_compute. repeat split. Qed.
